@@ -1,16 +1,16 @@
 """C13 - frame index metadata is truthful for the rows written.  (structural clauses)
 
-R13.1 (def-use) the statistics are computed from the windowed accessor (`data[<name>]`, which applies [from_idx:to_idx]),
+R13.1 (semantic store inventory) the statistics are computed from the windowed accessor (`data[<name>]`, which applies [from_idx:to_idx]),
       never from the raw source, and from the frame's first channel.
-R13.2 (CFG) user values win: every store to INDEX-MIN / INDEX-MAX / SPACING / DIRECTION (value or units) on the write path
+R13.2 (semantic store inventory: path conditions) user values win: every store to INDEX-MIN / INDEX-MAX / SPACING / DIRECTION (value or units) on the write path
       goes through the "only if None" helper; explicit values - including 0 - reach the attribute (AttrSetup yields every
       part that is not None).
 R13.3 (effects, shared with C14 R14.5) derived values must not outlive the write that derived them  [known finding].
-R13.4 (AST) no index type => INDEX-MIN := 1, INDEX-MAX := number of windowed rows (leading dimension), SPACING := 1;
+R13.4 (semantic store inventory + inlined helper summary) no index type => INDEX-MIN := 1, INDEX-MAX := number of windowed rows (leading dimension), SPACING := 1;
       index type => INDEX-MIN from min(), INDEX-MAX from max() (not crossed); spacing only on the "uniform" result,
       direction only otherwise; the sign mapping is consistent.
-R13.5 (dtype lattice) differences are taken in a type that cannot wrap: integer index data are widened before np.diff.
-R13.6 (AST) the uniformity test is purely relative (no absolute tolerance that swallows small-step indexes).
+R13.5 (inlined helper summary) differences are taken in a type that cannot wrap: integer index data are widened before np.diff.
+R13.6 (inlined helper summary) the uniformity test is purely relative (no absolute tolerance that swallows small-step indexes).
 """
 
 from __future__ import annotations
